@@ -512,6 +512,11 @@ func c01LanePipe(t *testing.T, s *c01Sess, profile string, n int) {
 		if c01RawPathDropped(tc.u, req, err) || (tc.after != nil && c01RawPathDropped(tc.after.u, req, err)) {
 			class = "rawpath-dropped"
 		}
+		if tc.bodyKind == "reader" {
+			// known finding C01-2: a one-shot reader reaches the transport with a GetBody that
+			// hands out the same reader again (the model follows the repaired Client.roundTrip)
+			class = "oneshot-body-replayed"
+		}
 		// known finding C01-4 (fixes/C01-4): several field lines under "Cookie" + cookie objects —
 		// http.Request.AddCookie rewrites the field from its first line (the model folds the lines)
 		for _, d := range []*c01PipeCase{tc, tc.after} {
@@ -526,11 +531,6 @@ func c01LanePipe(t *testing.T, s *c01Sess, profile string, n int) {
 				class = "cookie-lines-folded"
 				s.Count("class:cookie-lines-folded")
 			}
-		}
-		if tc.bodyKind == "reader" {
-			// known finding C01-2: a one-shot reader reaches the transport with a GetBody that
-			// hands out the same reader again (the model follows the repaired Client.roundTrip)
-			class = "oneshot-body-replayed"
 		}
 		// the model gets the marshalled bytes as an in-memory body, and the masked Content-Type;
 		// ONE line per description: what holds at the first transmission, what holds after the edit
